@@ -375,7 +375,11 @@ func c15Rnd(v c15Vec, id int, dir string) []c15Obs {
 	coord := func() float64 {
 		// now and then a signed zero or a value that underflows to one in float32: the same point may be
 		// supplied as +0 and as -0
-		switch r.Intn(14) {
+		switch r.Intn(16) {
+		case 14: // exact binary ties at two decimals (x.125, x.375, ...) and eighths in general
+			return float64(r.Intn(4000)-2000) / 8
+		case 15: // three-decimal values (half of them end in 5: next to a two-decimal rounding boundary)
+			return float64(r.Intn(40000)-20000) / 1000
 		case 0:
 			return 0
 		case 1:
@@ -467,7 +471,7 @@ func c15Rnd(v c15Vec, id int, dir string) []c15Obs {
 			ls[r.Intn(ns)][r.Intn(2)].X = 3e13 * (1 + r.Float64())
 		}
 	}
-	for _, kind := range []string{"todxf", "savedxf", "dxfobj"} {
+	for _, kind := range []string{"todxf", "savedxf", "dxfobj", "dxftwo"} {
 		o := newC15Obs("mdxf", kind, id, v)
 		o.Mag, o.N = mag, ns
 		p := filepath.Join(dir, "m.dxf")
@@ -478,6 +482,23 @@ func c15Rnd(v c15Vec, id int, dir string) []c15Obs {
 		case "savedxf":
 			if err := render.SaveDXF(p, ls); err != nil {
 				o.Derr, o.Dmsg = 1, "SaveDXF: "+err.Error()
+			}
+		case "dxftwo":
+			// two drawings alive at the same time, filled alternately: each file holds its own segments only
+			d1 := render.NewDXF(p)
+			d2 := render.NewDXF(filepath.Join(dir, "other.dxf"))
+			for i, l := range ls {
+				d1.Line(l)
+				d2.Line(&sdf.Line2{{X: 700000 + float64(i), Y: 1}, {X: 700000 + float64(i), Y: 2}})
+				if i%3 == 0 {
+					d2.Line(&sdf.Line2{{X: 800000 + float64(i), Y: 1}, {X: 800000 + float64(i), Y: 2}})
+				}
+			}
+			if err := d2.Save(); err != nil {
+				o.Derr, o.Dmsg = 1, "DXF.Save (second drawing): "+err.Error()
+			}
+			if err := d1.Save(); err != nil {
+				o.Derr, o.Dmsg = 1, "DXF.Save: "+err.Error()
 			}
 		default:
 			// the drawing object used step by step: points first (they go to their own layer), then the segments,
@@ -557,9 +578,15 @@ func c15Rnd(v c15Vec, id int, dir string) []c15Obs {
 					o.Inexact++
 					return
 				}
-				// two decimals are printed; the value itself is ONE float64 subtraction of two inputs
+				// two decimals are printed; the value itself is ONE float64 subtraction of two inputs, so the text
+				// must be exactly the two-decimal rendering of that value (ties included)
 				bound := 0.5e-2 + math.Abs(want)*4e-16
 				_ = ext
+				if exp := fmt.Sprintf("%.2f", want); exp != s && !(want == 0 && (s == "0.00" || s == "-0.00")) {
+					if x := scaled(1, 1e-3); x > o.MaxErr { // not the two-decimal rendering of the value
+						o.MaxErr = x
+					}
+				}
 				if x := scaled(math.Abs(got-want), bound); x > o.MaxErr {
 					o.MaxErr = x
 				}
